@@ -456,3 +456,23 @@ fn entry(input: proc_macro::TokenStream) -> Result<TokenStream> {
 
     Ok(ts.into_impl(ident, generics))
 }
+
+// Verification hook (off by default): the body of `entry`, callable on a `proc_macro2`
+// token stream from a test binary of this crate.
+#[cfg(all(test, feature = "verif-hooks"))]
+fn verif_expand(input: TokenStream) -> Result<TokenStream> {
+    let input = syn::parse2::<Item>(input)?;
+    let (ts, ident, generics) = match input {
+        Item::Struct(s) => (types::struct_def(&s)?, s.ident, s.generics),
+        Item::Enum(e) => (types::enum_def(&e)?, e.ident, e.generics),
+        _ => syn_err!(input.span(); "unsupported item"),
+    };
+
+    Ok(ts.into_impl(ident, generics))
+}
+
+// Verification hook (off by default): in-process monitor, source lives outside this repository.
+#[cfg(all(test, feature = "verif-hooks"))]
+mod verif_monitor {
+    include!(concat!(env!("TS_RS_VERIF_DIR"), "/harness/macro_monitor.rs"));
+}
